@@ -19,7 +19,8 @@ EXPLANATION = (
     "search_best/search iterate offset..len, index (start + entries.len() +/- i/2) % entries.len(), skip an element only when the tree "
     "is reserved or rated Invalid, and exit early only by returning a non-Memory result of access; rating closures of the global "
     "searches produce Invalid only when free < 2^order. R-GETAT-FALLTHROUGH: get_at reaches steal_global(frame.as_tree(), class, "
-    "order, Some(frame)) on every path where the local attempt is absent or failed; steal_global fails only via Trees::steal or Lower::get."
+    "order, Some(frame)) on every path where the local attempt is absent or failed; steal_global fails only via Trees::steal or Lower::get. R-UNDO (shared with C02): an allocation attempt that fails after "
+    "taking frames from a tree or reservation counter gives them back, so failed attempts do not hide free frames from later searches."
 )
 
 DRAIN = "llfree::local::Locals::drain"
@@ -491,3 +492,6 @@ def run(rep, programs):
     r_drain_total(rep, prog)
     r_global_search(rep, prog)
     r_getat(rep, prog)
+    # failed attempts give back what they took from the tree counters: otherwise free frames become invisible to the searches
+    from props import c02
+    c02.r_undo(rep, prog)
